@@ -8,6 +8,8 @@ R3  gating precedes delivery: solo / disabled-track returns exempt tempo and tim
 R4  same-tick order: note-offs and controllers are concatenated before the bucket that holds note-ons; the note-state index
     used for the note-off reordering is the same expression wherever it is computed.
 R5  reported length = latest row time + post-song delay, whose initial value is 1.0.
+R6  tempo freshness: in processEvents the tick->seconds conversion of the delay to the next row reads m_tempo at a point from
+    which no handleEvent call is reachable (a Set Tempo of the current row already applies to the following delay).
 """
 from ..core import *
 from ..logic import *
@@ -22,6 +24,7 @@ RULES = [
     Rule('C07.R3', 'track/channel gating dominates delivery; track-0 timing events are exempt', 5),
     Rule('C07.R4', 'same-tick ordering buckets and a consistent note-state index', 3),
     Rule('C07.R5', 'reported length is the latest row time plus the one-second post-song delay', 2),
+    Rule('C07.R6', 'the delay to the next row is converted with the tempo in force after the row\'s events were handled', 1),
 ]
 EXPLANATION = ('AST/CFG agreement rules over BW_MidiSequencer::handleEvent, parseEvent, MidiTrackRow::sortEvents, buildTimeLine and the interface wiring in '
                'opnmidi_sequencer.cpp: switch-case -> callee tables with argument order, data-byte counts per status, guard facts of the gating returns, '
@@ -260,4 +263,52 @@ def analyse(facts, tier):
                 if ap[2] == '+=' and short(strip(ap[1]).get('n', '')) == 'm_postSongWaitDelay':
                     add = True
     obls.append(Obl('C07.R5', bt.name, 'length = max row time + post-song delay', bt.loc, 'discharged' if (mx and add) else 'finding', why='max over rows, then += m_postSongWaitDelay' if (mx and add) else 'length computation differs (max=%s, add=%s)' % (mx, add)))
+    obls += r6(facts)
     return obls
+
+
+
+def r6(facts):
+    out = []
+    pe = facts.fn(SEQ + '::processEvents')
+    he = [(b, j) for b, j, st in pe.cfg.stmts() for x in calls_in(st['s']) if short(callee_name(x)) == 'handleEvent']
+    if not he:
+        raise build.AnalysisBroken('C07.R6: handleEvent calls not found in processEvents')
+    # locals initialised / assigned from m_tempo
+    copies = {}
+    for b, j, st in pe.cfg.stmts():
+        s_ = st['s']
+        if s_.get('k') == 'DeclStmt':
+            for v in s_['decls']:
+                if v.get('init') is not None and mentions(v['init'], member_named('m_tempo')):
+                    copies[v['id']] = (b, j, st)
+        for x in walk(s_):
+            ap = assign_parts(x)
+            if ap and strip(ap[0]).get('k') == 'DeclRefExpr' and mentions(ap[1], member_named('m_tempo')):
+                copies[strip(ap[0])['id']] = (b, j, st)
+    sites = []
+    for b, j, st in pe.cfg.stmts():
+        for x in walk(st['s']):
+            ops = None
+            if x.get('k') == 'BinaryOperator' and x.get('op') == '*':
+                ops = [x['l'], x['r']]
+            elif short(x.get('callee', '')) == 'operator*' and len(x.get('a', [])) == 2:
+                ops = x['a']
+            if not ops:
+                continue
+            for o in ops:
+                if mentions(o, member_named('m_tempo')):
+                    sites.append((b, j, st, x, (b, j), 'm_tempo'))
+                else:
+                    for y in walk(o):
+                        if y.get('k') == 'DeclRefExpr' and y.get('id') in copies:
+                            cb, cj, cst = copies[y['id']]
+                            sites.append((b, j, st, x, (cb, cj), 'copy `%s` taken at line %s' % (short(y['n']), cst['loc'].rsplit(':', 1)[1])))
+    if not sites:
+        raise build.AnalysisBroken('C07.R6: the tick -> time multiplication by the tempo was not found in processEvents')
+    for b, j, st, x, readpt, what in sites:
+        stale = [h for h in he if pe.cfg.stmt_before(readpt, h)]
+        out.append(Obl('C07.R6', pe.name, show(x)[:60], st['loc'], 'finding' if stale else 'discharged',
+                       why=('the tempo used for the delay after this row is a %s, read before the row\'s events are handled: a Set Tempo event takes effect one row late' % what) if stale else
+                       'tempo read (%s) after every handleEvent call of the row' % what))
+    return out
